@@ -221,8 +221,13 @@ def check_marinate(mods, ref, ctx, name='plt'):
                 for f in range(ref.nf):
                     key = list(pck.fields.keys())[f]
                     for b in range(len(ref.boxes[l])):
-                        obl.equal(pck2.cells[l]['mins'][key][b], ref.mins[l][b][f], 'marinate: unpickled min of %s level %d box %d' % (key, l, b))
-                        obl.equal(pck2.cells[l]['maxs'][key][b], ref.maxs[l][b][f], 'marinate: unpickled max of %s level %d box %d' % (key, l, b))
+                        try:
+                            gmin, gmax = pck2.cells[l]['mins'][key][b], pck2.cells[l]['maxs'][key][b]
+                        except (IndexError, KeyError, TypeError) as e:
+                            obl.fail('marinate: the unpickled min/max tables of level %d have no entry for %s, box %d (%s)' % (l, key, b, type(e).__name__))
+                            continue
+                        obl.equal(gmin, ref.mins[l][b][f], 'marinate: unpickled min of %s level %d box %d' % (key, l, b))
+                        obl.equal(gmax, ref.maxs[l][b][f], 'marinate: unpickled max of %s level %d box %d' % (key, l, b))
                 for b in range(len(ref.boxes[l])):
                     got = pck2[:][l][b]
                     c01.compare(obl, got, ref.data[l][b], 'marinate: unpickled reader pck[:][%d][%d]' % (l, b))
@@ -335,8 +340,7 @@ def run_case(case):
     for sig, v in viol.items():
         if not common.claim('C18', sig):
             continue
-        d = make_replay(ref, v, case)
-        status, out = common.run_replay(d)
+        d, status, out = common.replay_portfolio(lambda: make_replay(ref, v, case))
         v2 = {'signature': sig, 'what': v['what'], 'replay': d}
         if status == 'reproduced':
             res['violations'].append(v2)
